@@ -50,6 +50,12 @@ type concExec struct {
 	gcAccepted int
 	gcTasks  []int
 	degraded int
+	lastFS   map[int]int64 // task id -> step of its last disk mutation
+	injOps   []Op          // pre-generated writes that are placed inside GC's per-record window
+	injNext  int
+	injKey   int
+	injReq   bool
+	injBusy  bool
 }
 
 func (x *concExec) fail(rule, sub, msg string) {
@@ -95,6 +101,12 @@ func genConcPlan(prop string, seed uint64, tier string) *Plan {
 				c.Served = append(c.Served, b)
 			}
 		}
+	}
+	if prop == "C05" && r.Bool(1, 2) {
+		// target GC's per-record window (newest-check, copy, tree repoint, hint write): the
+		// pass is preempted with probability 1/2 at each of its scheduling points
+		c.BiasTag = "gc"
+		c.Policy = simrt.PolicyRandomWalk
 	}
 	if prop == "C05" || prop == "C17" {
 		// GC worlds: one bucket, several small files
@@ -205,12 +217,55 @@ func genConcPlan(prop string, seed uint64, tier string) *Plan {
 			env = append(env, gc2)
 		}
 	}
+	if prop == "C05" {
+		// writes to be placed exactly between GC's newest-check and its tree repoint (the key is
+		// chosen at run time: the key of the record the pass is relocating)
+		for i := r.Range(0, 6); i > 0; i-- {
+			id++
+			op := Op{ID: id, Kind: "iset", V: ValSpec{Class: r.Pick(VConst, VText), Len: r.Pick(10, 10, 100, 230), Seed: uint32(r.U64())}}
+			if r.Bool(1, 4) {
+				op.Kind = "idel"
+			}
+			env = append(env, op)
+		}
+	}
 	p.Clients = append(p.Clients, env) // last list = environment
 	p.Extra["env"] = 1
 	return p
 }
 
 func (x *concExec) tick() int64 { x.seq++; return x.seq }
+
+// maybeInject: when the pass issues the data write that relocates a record (it has passed the
+// newest-check and has not yet repointed the tree) a pre-generated client write to the same key
+// may be placed right there: the pass is parked until the injector task has finished the write.
+// A legal schedule, chosen deliberately instead of waiting for the random walk to find it.
+func (x *concExec) maybeInject(g *Gen, ev *simrt.FSEvent) {
+	if x.injBusy || x.injNext >= len(x.injOps) || ev.Tag != "gc" || ev.Kind != simrt.FSWrite || len(ev.Data) < recHdr {
+		return
+	}
+	if len(ev.Path) < 5 || ev.Path[len(ev.Path)-5:] != ".data" {
+		return
+	}
+	rec, ok := refDecodeAt(ev.Data, 0, 250, 1<<22)
+	if !ok {
+		return
+	}
+	k := -1
+	for i, key := range x.plan.Keys {
+		if string(key) == string(rec.Key) {
+			k = i
+		}
+	}
+	if k < 0 || g.W.Choose(simrt.StreamFault, 3) != 1 {
+		return
+	}
+	x.injBusy = true
+	x.injKey = k
+	x.injReq = true
+	g.W.WaitCond("gc-parked-for-injection", func() bool { return !x.injReq })
+	x.injBusy = false
+}
 
 // gcRunning reports whether an accepted GC pass has not finished yet.
 func (x *concExec) gcRunning() bool {
@@ -312,15 +367,22 @@ func runConc(plan *Plan, tape *simrt.Tape) *Outcome {
 	dir := mkWorldDir()
 	defer os.RemoveAll(dir)
 	sim := NewSim(plan.Cfg, dir, tape)
-	x := &concExec{plan: plan, out: out, sim: sim, vals: map[string]int{}, valOf: map[int][]byte{}, keyOfW: map[int]int{}}
+	x := &concExec{plan: plan, out: out, sim: sim, vals: map[string]int{}, valOf: map[int][]byte{}, keyOfW: map[int]int{}, lastFS: map[int]int64{}}
+	sim.OnFS = func(g *Gen, ev *simrt.FSEvent) {
+		x.lastFS[ev.Task] = ev.Step
+		x.maybeInject(g, ev)
+	}
 	all := append([][]Op{plan.Ops}, plan.Clients...)
 	for _, l := range all {
 		for _, op := range l {
-			if op.Kind == "set" {
+			if op.Kind == "set" || op.Kind == "iset" {
 				v := makeValue(op.V, op.vid())
 				x.valOf[op.ID] = v
 				x.vals[string(v)] = op.ID
 				x.keyOfW[op.ID] = op.K
+			}
+			if op.Kind == "iset" || op.Kind == "idel" {
+				x.injOps = append(x.injOps, op)
 			}
 		}
 	}
@@ -357,6 +419,30 @@ func runConc(plan *Plan, tape *simrt.Tape) *Outcome {
 				remaining--
 			})
 		}
+		stopInj := false
+		if len(x.injOps) > 0 {
+			w.GoHarness("injector", func() {
+				for {
+					w.WaitCond("inject-wait", func() bool { return x.injReq || stopInj })
+					if stopInj && !x.injReq {
+						return
+					}
+					op := x.injOps[x.injNext]
+					x.injNext++
+					op.K = x.injKey
+					if op.Kind == "iset" {
+						op.Kind = "set"
+						x.keyOfW[op.ID] = op.K
+					} else {
+						op.Kind = "del"
+					}
+					x.doOp(90, op)
+					x.out.probe("write-placed-in-gc-window")
+					x.injReq = false
+				}
+			})
+		}
+		defer func() { stopInj = true }()
 		envDone := false
 		w.GoHarness("env", func() {
 			x.runEnv(env)
@@ -472,6 +558,8 @@ func (x *concExec) runEnv(env []Op) {
 		target := start + int64(op.At)
 		w.WaitCondSteps("env-wait", int64(op.At)+1, func() bool { return w.Steps() >= target })
 		switch op.Kind {
+		case "iset", "idel":
+			continue
 		case "flush":
 			g.H.VerifFlush(true)
 		case "dump":
@@ -501,7 +589,19 @@ func (x *concExec) runEnv(env []Op) {
 				}
 			}
 			if op.Kind == "gc2" {
-				w.GoHarness("gc2", do)
+				// competing requests from a second task, repeated over the whole lifetime of the
+				// first pass (also its final deferred steps: truncate, hint dump, deregistration)
+				gaps := NewRng(uint64(op.ID)*977 + x.plan.Seed)
+				w.GoHarness("gc2", func() {
+					for i := 0; i < 60; i++ {
+						do()
+						if len(x.gcTasks) > 0 && !x.gcRunning() && i > 3 {
+							return
+						}
+						until := w.Steps() + int64(gaps.Pick(1, 2, 5, 13, 40, 120))
+						w.WaitCondSteps("gc2-gap", 200, func() bool { return w.Steps() >= until })
+					}
+				})
 			} else {
 				do()
 			}
@@ -736,7 +836,9 @@ func (x *concExec) checkGCOverlap() {
 	for i := 0; i < len(passes); i++ {
 		for j := i + 1; j < len(passes); j++ {
 			a, b := passes[i], passes[j]
-			aEnd, bEnd := a.LastStep, b.LastStep
+			// a pass is "in progress" from its acceptance to its last disk mutation (the few
+			// statements after its deregistration do not count)
+			aEnd, bEnd := x.lastFS[a.ID], x.lastFS[b.ID]
 			if !a.Done {
 				aEnd = 1 << 62
 			}
